@@ -23,7 +23,7 @@
 (* whole signal (delayed by the horizon after pastify()).  How the input   *)
 (* was cut into batches does not occur in the contract at all.             *)
 (***************************************************************************)
-EXTENDS Dense, Past, Json, IOUtils, TLCExt
+EXTENDS Dense, Past, Norm, Json, IOUtils, TLCExt
 
 Cases == JsonDeserialize(IOEnv.TRACE_FILE)
 NCases == Len(Cases)
@@ -78,10 +78,15 @@ Mismatch(out, ex, d0, n, h, lo2, hi2) ==
   IF bad = {} THEN 0 ELSE CHOOSE k \in bad : \A j \in bad : k <= j
 
 ---------------------------------------------------------------------------
+\* dense time: a bound denotes duration / default unit time units; the model needs whole cells (other cases skipped)
+IsWritten(obj) == "written" \in DOMAIN obj
+DenseU(obj) == [def |-> obj.units.def, pnum |-> 1, pden |-> 1, punit |-> obj.units.def]
 ApplyParse(m, e, obj, step) ==
+  IF IsWritten(obj) /\ NormStatus(obj.written, DenseU(obj)) # "ok" THEN R([m EXCEPT !.dead = TRUE], Ok, 1) ELSE
   LET f1 == ExcClass(TRUE, e, "parse.exc", step)
-      phi0 == Desugar(obj.phi)
-      f2 == IF f1 = Ok /\ obj.implAst # phi0 THEN F("parse.ast", step, phi0, obj.implAst) ELSE Ok IN
+      phi0 == Desugar(IF IsWritten(obj) THEN NormAst(obj.written, DenseU(obj)) ELSE obj.phi)
+      impl == IF IsWritten(obj) /\ obj.implAst.op # "none" THEN NormAst(obj.implAst, DenseU(obj)) ELSE obj.implAst
+      f2 == IF f1 = Ok /\ impl # phi0 THEN F("parse.ast", step, phi0, impl) ELSE Ok IN
   R([m EXCEPT !.phase = "parsed", !.phi = phi0, !.inst = phi0], f1 \o f2, 0)
 
 ApplyPastify(m, e, step) ==
@@ -157,12 +162,15 @@ Apply(c, e, step) ==
     [] e.a = "dt_evaluate" -> ApplyDtEvaluate(m, e, step)
 
 \* relations between objects at the end of a case
-Covered(out) == IF out = <<>> THEN {} ELSE out[1][1]..out[Len(out)][1]
+\* the instants at which two step functions can differ: their time-stamps and the instants just after them
+Stamps(out) == {out[i][1] : i \in 1..Len(out)} \cup {out[i][1] + 1 : i \in 1..Len(out)}
+Covered(out) == IF out = <<>> THEN {} ELSE {t \in Stamps(out) : t <= out[Len(out)][1]}
+Within(out, t) == out # <<>> /\ out[1][1] <= t /\ t <= out[Len(out)][1]
 RelFail(c, r) ==
   IF ms[r.x].dead \/ ms[r.y].dead THEN Ok ELSE
   CASE r.rel = "same_fn" ->        \* the two emitted lists denote the same step function where both are defined
          LET a == ms[r.x].emitted b == ms[r.y].emitted
-             both == Covered(a) \cap Covered(b) IN
+             both == {t \in Covered(a) \cup Covered(b) : Within(a, t) /\ Within(b, t)} IN
          IF \A t2 \in both : StepAt(a, t2) = StepAt(b, t2) THEN Ok ELSE F("rel.same_fn", 0, a, b)
     [] r.rel = "sampled_eq" ->     \* C19: dense result x sampled at the discrete instants = discrete result y, while k + h < N
          LET a == ms[r.x].emitted b == ms[r.y].emitted N == Len(b) IN
